@@ -212,7 +212,7 @@ def analyse(css_text, default_bg="white"):
                 ri.bg_value = _ser(bw.value) if bw else None
                 trefs, brefs = [], []
                 ri.eff_text = resolve(ri.color_value, props, (), trefs) if cw else None
-                ri.eff_bg = resolve(ri.bg_value, props, (), brefs) if bw else default_bg
+                ri.eff_bg = resolve(ri.bg_value, props, (), brefs) if bw else resolve(default_bg, props, (), brefs)
                 ri.text_refs, ri.bg_refs = trefs, brefs
                 ri.var_refs = trefs + brefs
                 ri.is_root = ri.selector in (":root", "html") and depth == 0
